@@ -313,6 +313,27 @@ def no_hidden_state(ck, rule):
                 elif isinstance(node, ast.Call) and dotted(node.func) == "setattr" and len(node.args) >= 2 and dotted(node.args[0]) == "self" and isinstance(node.args[1], ast.Constant) \
                         and node.args[1].value not in allowed:
                     ck.bad(rule, f, "%s objects carry only the documented attributes (no cached / memoised state)" % f.cls, "setattr(self, %r, ...)" % node.args[1].value, node)
+    all_attrs = set()
+    for v_ in PINNED_INSTANCE_ATTRS.values():
+        all_attrs |= set(v_)
+    for f in prog.all_funcs():
+        # (a') a new attribute hung on another object (x._cache = ...) is hidden state just the same
+        for node in ast.walk(f.node):
+            if isinstance(node, ast.Attribute) and isinstance(node.ctx, ast.Store) and isinstance(node.value, ast.Name) and node.value.id not in ("self", "cls") \
+                    and node.attr not in all_attrs and node.attr.startswith("_") and not node.attr.startswith("__"):
+                ck.bad(rule, f, "no function hangs a new private attribute on an object it was given", "%s.%s = ..." % (node.value.id, node.attr), node,
+                       "a value remembered on an operand goes stale when the operand is written in place")
+            if isinstance(node, ast.Subscript) and isinstance(node.ctx, (ast.Store, ast.Del)) and isinstance(node.value, ast.Attribute) and node.value.attr == "__dict__":
+                k_ = node.slice.value if isinstance(node.slice, ast.Constant) else None
+                if k_ is None or k_ not in all_attrs:
+                    ck.bad(rule, f, "no function adds entries to an object's attribute record", "%s = ..." % src(node)[:50], node,
+                           "a value remembered on an operand goes stale when the operand is written in place")
+        # (c) no mutable default argument (one object shared by every call / every instance)
+        dfl = list(f.node.args.defaults) + [d for d in f.node.args.kw_defaults if d is not None]
+        for d in dfl:
+            if isinstance(d, (ast.List, ast.Dict, ast.Set)) or (isinstance(d, ast.Call) and dotted(d.func) in ("list", "dict", "set")):
+                ck.bad(rule, f, "no parameter has a mutable default value", "default %s in %s" % (src(d)[:30], f.qualname), d,
+                       "every call that relies on the default shares one object: state leaks between unrelated objects")
     for m, assigns in prog.module_assigns.items():
         mod_names = set(assigns)
         for f in prog.all_funcs():
@@ -338,3 +359,23 @@ def no_hidden_state(ck, rule):
                     ck.bad(rule, f, "no function writes into a module-level container", "%s written in %s" % (base, f.qualname), node,
                            "a memo keyed by part of the inputs returns what an earlier, different call computed")
     ck.ok(rule, "fxpmath package", "%d attribute / container stores examined: only documented instance attributes, no module-level state" % n, nontrivial=False)
+
+
+def reset_only_by_user(ck, rule):
+    """C04.R7: flags are sticky - nothing inside the package calls reset() (clearing is the user's act), and Config.update applies every keyword
+    (its loop has no early exit)."""
+    prog = ck.prog
+    n = 0
+    for f in prog.all_funcs():
+        for c in calls_in(f.node):
+            if isinstance(c.func, ast.Attribute) and c.func.attr == "reset" and not c.args and not c.keywords:
+                n += 1
+                ck.bad(rule, f, "no library function clears status flags on behalf of the user", "%s calls %s" % (f.qualname, src(c)[:40]), c,
+                       "flags raised earlier on that object are lost (and an operand's inaccuracy is cleared before it is propagated)")
+    u = prog.func("objects.Config.update", required=False)
+    if u is not None:
+        for loop in [x for x in ast.walk(u.node) if isinstance(x, (ast.For, ast.While))]:
+            esc = [x for x in ast.walk(loop) if isinstance(x, (ast.Return, ast.Break))]
+            ck.check(not esc, rule, u, "Config.update applies every keyword it is given (no early exit from its loop)", "loop leaves with %s" % (type(esc[0]).__name__ if esc else ""), esc[0] if esc else None,
+                     "keywords after the first unknown one (raw=, scale=, callbacks=) are silently dropped: overflow='wrap' written after raw=True is ignored")
+    ck.ok(rule, "fxpmath package", "no internal call of reset(); Config.update has no early exit", nontrivial=False)
